@@ -1,7 +1,7 @@
 (* Corr_prefix.v — correspondence engine `prefix`: what the harness runs on the implementation
    (harness/src/e_prefix.rs) and what the model says for the same input; plus the C12 oracle that is
    evaluated on the IMPLEMENTATION's outputs. *)
-From BS Require Import Bytes Varint Cid Prefix Hasher.
+From BS Require Export Bytes Varint Cid Prefix Hasher.
 Open Scope N_scope.
 
 Inductive to_cid_out := ToOk (c : cid) | ToErr (e : hash_err) | ToPanic | ToNoPrefix.
